@@ -899,6 +899,14 @@ func (q *checker) bcheckVar(n *a.Var) error {
 		return err
 	}
 
+	// Local variables are zero-initialized, including every element of an
+	// array, so zero has to be a valid value of the innermost type.
+	if ib := n.XType().Innermost().AsNode().MBounds(); (ib[0] != nil) &&
+		((zero.Cmp(ib[0]) < 0) || (zero.Cmp(ib[1]) > 0)) {
+		return fmt.Errorf("check: default zero value is not within bounds %v for variable %q",
+			ib, n.Name().Str(q.tm))
+	}
+
 	lhs := a.NewExpr(0, 0, n.Name(), nil, nil, nil, nil)
 	lhs.SetMType(n.XType())
 	// "var x T" has an implicit "= 0".
